@@ -67,7 +67,9 @@ class heap(object):
         return the future checnk address
         """
         ret = self.addr
-        self.addr = (self.addr + size + self.align - 1)
+        # A zero-sized request still consumes an address: two live allocations
+        # must not share the same pointer
+        self.addr = (self.addr + max(size, 1) + self.align - 1)
         self.addr &= self.mask ^ (self.align - 1)
         return ret
 
